@@ -8,8 +8,9 @@ use std::{
     panic,
 };
 
-use crate::prelude::{transpose, Dot};
+use crate::prelude::transpose;
 
+use super::super::decomposition::cholesky;
 use super::super::utils::{dot, ipiv_parity};
 use super::vops::*;
 use super::{broadcast_add, broadcast_div, broadcast_mul, broadcast_sub, Vector};
@@ -143,21 +144,11 @@ impl Matrix {
     pub fn cholesky(&self) -> Matrix {
         assert!(self.is_positive_definite(), "matrix not positive definite");
 
-        let mut l = Matrix::zeros(self.nrows, self.ncols);
-
-        for i in 0..self.ncols {
-            for j in 0..(i + 1) {
-                let s = l.get_row_as_vector(j).dot(l.get_row_as_vector(i));
-
-                if i == j {
-                    l[[i, j]] = (self[[i, i]] - s).sqrt();
-                } else {
-                    l[[i, j]] = (self[[i, j]] - s) / l[[j, j]];
-                }
-            }
-        }
-
-        l
+        Matrix::new(
+            cholesky(&self.data),
+            self.nrows as i32,
+            self.ncols as i32,
+        )
     }
 
     pub fn lu(&self) -> (Matrix, Vec<i32>) {
